@@ -118,8 +118,10 @@ def verdicts(c):
             if d:
                 out.append(("violation", "silicon/" + what(d)))
     # the specification against silicon: a disagreement is a defect of the specification, not of falcon
-    if native_ok and spec is not None:
-        d = diff(spec, npost) if spec_ok else ["next"]
+    # (a specification trap where silicon ran on is not compared: the specification's memory consists of the
+    #  state's windows only, the scratch region of the stepper is mapped around them)
+    if native_ok and spec_ok:
+        d = diff(spec, npost)
         if d:
             out.append(("broken", "spec-vs-silicon/" + what(d)))
     # falcon against the specification
@@ -151,7 +153,9 @@ def signature(c):
     v = verdicts(c)
     kind = "violation" if any(k == "violation" for k, _ in v) else "broken"
     w = next((w for k, w in v if k == kind), "-")
-    # C01/<mode>/<mnemonic>/<form>/<oracle>/<what differs>
+    # C01/<mode>/<mnemonic>/<form>/<what differs>; for a broken correspondence the pair of oracles is kept
+    if kind == "violation" and "/" in w:
+        w = w.split("/", 1)[1]
     return f"C01/{c.cls}/{w}"
 
 
